@@ -319,6 +319,8 @@ def diff_prec(x, y):
 def bin2float(dtype, b):
     if b == "0":
         return dtype(0)
+    elif b == "-0":
+        return -dtype(0)
     elif b == "-inf":
         return -dtype(numpy.inf)
     elif b == "inf":
@@ -405,7 +407,7 @@ def float2bin(f):
         return f"{sign}inf"
     elif e == -eb + 1:
         if not significant_bits:
-            return "0"
+            return "-0" if numpy.signbit(f) else "0"
         # subnormal has no leading significant
         k = len(significant_bits)
         significant_bits = significant_bits.lstrip("0")
